@@ -341,6 +341,45 @@ def check_locale_tables(acc, pendulum):
                              {k: fa.get(k) for k in keys}, {k: fb.get(k) for k in keys})
 
 
+def check_time_now(acc, pendulum, loc):
+    """Time.diff_for_humans() / Time.diff() WITHOUT a reference read "now" in pendulum's local timezone - also when that has
+    been overridden with set_local_timezone().  The real clock is consulted once: a zone is chosen whose wall clock is well
+    inside the day (so that +-5 min 30 s does not wrap) and at least three hours away from the machine's own zone."""
+    import datetime as dt_
+    import time as time_
+    utc_now = dt_.datetime.now(dt_.timezone.utc)
+    sys_off = time_.localtime().tm_gmtoff
+    pick = None
+    for n in range(-11, 13):
+        h = (utc_now.hour + n) % 24
+        if 3 <= h < 21 and abs(n * 3600 - sys_off) >= 3 * 3600:
+            pick = n
+            break
+    if pick is None:
+        acc.c["skipped_no_suitable_zone"] += 1
+        return
+    zone = "Etc/GMT%s%d" % ("-" if pick > 0 else "+", abs(pick)) if pick else "UTC"
+    d = data(loc)
+    pendulum.set_local_timezone(zone)
+    try:
+        base = pendulum.now().time()
+        for future in (False, True):
+            t = base.add(minutes=5, seconds=30) if future else base.subtract(minutes=5, seconds=30)
+            for absolute in (False, True):
+                case = {"kind": "timenow", "loc": loc, "future": future, "abs": absolute}
+                r = basic(acc, "Time.diff_for_humans", f"{loc}/now", case, lambda: t.diff_for_humans(absolute=absolute, locale=loc))
+                if r is None:
+                    continue
+                ok = acceptable(d, [0, 0, 0, 0, 0, 5, 30], True, future, absolute) | acceptable(d, [0, 0, 0, 0, 0, 5, 28], True, future, absolute)
+                if ok and r not in ok:
+                    acc.mismatch("Time.diff_for_humans", f"{loc}/now/phrase", case, r, sorted(ok))
+            mins = t.diff().in_minutes()
+            if mins != 5:
+                acc.mismatch("Time.diff_for_humans", f"{loc}/now/diff-minutes", {"kind": "timenow", "loc": loc, "future": future, "abs": True}, mins, 5)
+    finally:
+        pendulum.set_local_timezone()
+
+
 def check_date_time(acc, pendulum, loc):
     """Date.diff_for_humans and Time.diff_for_humans (explicit other)."""
     d = data(loc)
@@ -784,6 +823,7 @@ def run_shard(shard):
                        {"seconds": -30}, {"minutes": -1, "seconds": -5}, {"days": 2}, {"years": 1, "days": -1}):
                 check_negative_duration(acc, pendulum, loc, kw)
             check_float_built(acc, pendulum, loc)
+            check_time_now(acc, pendulum, loc)
             check_date_time(acc, pendulum, loc)
             check_direction_data(acc, loc)
             check_tokens(acc, pendulum, loc)
@@ -859,6 +899,8 @@ def replay_case(case, acc):
         check_direction_data(acc, case["loc"])
     elif k == "mer":
         check_meridiem_hours(acc, pendulum, case["loc"])
+    elif k == "timenow":
+        check_time_now(acc, pendulum, case["loc"])
     elif k == "tables":
         check_locale_tables(acc, pendulum)
     elif k == "fb":
